@@ -1,5 +1,8 @@
 HOOK_COMMITS = ["d8a0f57"]
-FIX_COMMITS = ["10a3687"]
+FIX_COMMITS = ["10a3687", "edbed29", "6730abc", "202cc98", "aa67b39"]
+CODEC_NOTE = ("Trusted: Lean kernel (axioms propext, Classical.choice, Quot.sound only); the hand-written spec/value/JSON model, tied to value.rs and value_util.rs by the "
+              "K-codec correspondence on generated specs of all 10 node kinds with hostile keys, conforming values, both map encodings, single-defect corruptions and arbitrary JSON; "
+              "serde_json's text parser/printer is outside the model.")
 NOTES = ("Every check: (1) regenerates the extracted data, rebuilds the Lean theorems of the property and audits their axioms; "
          "(2) rebuilds the harness against /repo's working tree with hooks on; (3) runs the real code and the model's executable "
          "definitions on the same generated schedules/inputs and compares them, and evaluates the property's own predicates on what "
@@ -8,6 +11,13 @@ CTL_NOTE = ("Trusted: Lean kernel (axioms propext, Classical.choice, Quot.sound 
             "by the K-ctl correspondence (real async_launch::launch driven by scripted completion orders, outcomes, bursts, Terminate positions, "
             "abort-honouring/ignoring evaluations); tokio/futures scheduling itself is not modelled - an event is 'the select! loop takes this result'.")
 TEXT = {
+    "C11": {
+        "text": "Theorems over the codec model for every spec/value/document: C11_reject (whatever fromJson accepts conforms - so wrong type, unknown/missing key, out-of-bounds number, wrong array length, map size "
+                "outside bounds, unknown option are rejected; fromJson is total), C11_rt_json (value -> JSON -> value -> same JSON), C11_rt_value / C11_same (exact value for unambiguous specs; the spec's own initial value read back "
+                "as itself), C11_before (a rejected guess returns before any start). The model is compared with the real reader/writer on every run; the driver also evaluates conformance of everything the real reader accepts.",
+        "design_ref": "7 (C11), 4 (L1, L2), 9 (D8, D9)", "note": CODEC_NOTE,
+        "technique": "Lean 4 structural-induction proofs over mutual spec/value/JSON families + differential correspondence of the codec",
+    },
     "C02": {
         "text": "Theorems C02_member / C02_min1 / C02_nonempty1 over the controller+algorithm-core model, for every event list: the reported best-seen was handed out as some individual, has exactly sample-size accepted results "
                 "and its objective is their summary; at sample size 1 it is a minimum over all accepted evaluations (eviction at the population cap, rejections, completion order and termination cause included) and a run with an accepted "
